@@ -135,6 +135,10 @@ LongCases ==
    /\ P(CaseRec("long", "Transpose", <<AIs("perm", <<1, 0>>)>>, <<X>>, SemTranspose(X, <<AIs("perm", <<1, 0>>)>>), <<"value", "long">>))
    /\ \A ax \in {0, 1} : P(CaseRec("long", "Concat", <<AI("axis", ax)>>, <<X, X>>, SemConcat(<<X, X>>, <<AI("axis", ax)>>), <<"value", "long">>))
    /\ P(CaseRec("long", "Concat", <<AI("axis", 0)>>, <<V, V>>, SemConcat(<<V, V>>, <<AI("axis", 0)>>), <<"value", "long">>))
+   \* a long input LIST: 40 and 130 tensors of different extents along the axis
+   /\ \A m \in {40, 130} : \A ax \in {0, 1} :
+         LET Xs == [i \in 1..m |-> Iota("f32", IF ax = 0 THEN <<1 + (i % 3), 2>> ELSE <<2, 1 + (i % 3)>>, 10 * i)] IN
+         P(CaseRec("long", "Concat", <<AI("axis", ax)>>, Xs, SemConcat(Xs, <<AI("axis", ax)>>), <<"value", "long_list">>))
    /\ LET a == SemSliceInts(V, <<1>>, <<2 * n>>, <<0>>, <<1>>) IN P(CaseRec("long", "Slice", <<>>, <<V, I64(<<1>>), I64(<<2 * n>>), I64(<<0>>), I64(<<1>>)>>, a, <<"value", "long">>))
    /\ LET a == SemSliceInts(V, <<2 * n>>, <<0>>, <<0>>, <<-1>>) IN P(CaseRec("long", "Slice", <<>>, <<V, I64(<<2 * n>>), I64(<<0>>), I64(<<0>>), I64(<<-1>>)>>, a, <<"value", "long">>))
    /\ LET I == T("i64", <<n>>, [k \in 1..n |-> (k * 7919) % (2 * n + 1)]) IN P(CaseRec("long", "Gather", <<>>, <<V, I>>, SemGather(V, I, <<>>), <<"value", "long">>))
